@@ -594,7 +594,9 @@ pub fn check(env: &Env, c: &Case, st: &mut Stats) -> CaseResult {
                 base_n = base_n.min(3000);
             }
             // beyond 10000 definitions the recursion in the resolver / canonicaliser is a recorded finding
-            let deep_sig: Option<&str> = if base_n > 10_000 && kind % 5 <= 1 { Some("unbounded-recursion-on-chains-beyond-10000-definitions") } else { None };
+            // (cycles of any generated length load since the resolver walks iteratively: only the
+            // query at the far end of a long alias chain still recurses, in Registry::canonicalize)
+            let deep_sig: Option<&str> = if base_n > 10_000 && kind % 5 == 0 { Some("unbounded-recursion-on-chains-beyond-10000-definitions") } else { None };
             let n = if kind % 5 == 2 || kind % 5 == 4 { (base_n * 5).min(100_000) } else { base_n };
             let (text, tokens, probe) = scale_text(*kind, n);
             st.eval();
